@@ -17,7 +17,7 @@ from ref.optable import op, push
 
 F, T = env.functions, env.tools
 TNOW = 1_700_000_000
-WINDOW = ('begin-1', 'begin', 'begin+1', 'end-2', 'end-1', 'end', 'end+1')
+WINDOW = ('begin-1', 'begin', 'begin+1', 'end-2', 'end-1', 'end', 'end+1', 'unit', 'empty', 'inverted')
 SIGNERS = ('correct', 'root', 'outsider')
 THR = 60
 
@@ -29,6 +29,12 @@ def P(b):
 def window(pos, t):
     """(begin, end) such that t sits at the named position"""
     span = 1000
+    if pos == 'unit':           # one-second window holding t
+        return t, t + 1
+    if pos == 'empty':          # begin == end: no timestamp satisfies begin <= t < end
+        return t, t
+    if pos == 'inverted':       # begin > end
+        return t + 5, t - 5
     if pos.startswith('begin'):
         d = {'begin-1': -1, 'begin': 0, 'begin+1': 1}[pos]
         b = t - d
@@ -39,7 +45,7 @@ def window(pos, t):
 
 
 def in_window(pos):
-    return pos in ('begin', 'begin+1', 'end-2', 'end-1')
+    return pos in ('begin', 'begin+1', 'end-2', 'end-1', 'unit')
 
 
 def keys(seed, chain='x'):
